@@ -332,3 +332,44 @@ def stop_line_without_points():
     """Stop line without start / end point (lies at the end of its lanelet), as the protobuf reader produces it."""
     from commonroad.scenario.lanelet import LineMarking, StopLine
     return StopLine(None, None, LineMarking.SOLID)
+
+
+def goal_file_roundtrip(goal, lanes, fmt, path, state_class="custom"):
+    """C08 file route: a scenario whose road network consists of `lanes` (rects in doubled coordinates) and one planning
+    problem whose goal position(s) of kind 'lanelets' REFER to lanelets of that network are written to `path`
+    (fmt 'xml' | 'pb') and read back.  -> (scenario, planning_problem_set, planning_problem) as read."""
+    import os
+    from commonroad.common.file_reader import CommonRoadFileReader
+    from commonroad.common.file_writer import CommonRoadFileWriter, OverwriteExistingFile
+    from commonroad.common.util import AngleInterval, FileFormat, Interval
+    from commonroad.planning.goal import GoalRegion
+    from commonroad.planning.planning_problem import PlanningProblem, PlanningProblemSet
+    from commonroad.geometry.shape import ShapeGroup
+    from commonroad.scenario.state import CustomState, KSState
+    ids = {tuple(r): 10 + j for j, r in enumerate(lanes)}
+    lls = [lanelet(ids[tuple(r)], r[0] / 2.0, r[1] / 2.0, (r[2] - r[0]) / 2.0, (r[3] - r[1]) / 2.0) for r in lanes]
+    sc = scenario()
+    sc.add_objects(network(lls))
+    states, lanelets_of = [], {}
+    for i, g in enumerate(goal):
+        kw = {"time_step": Interval(g["t"]["lo"], g["t"]["hi"])}
+        if g["pos"]["k"] == "lanelets":
+            lanelets_of[i] = [ids[tuple(r)] for r in g["pos"]["rs"]]
+            kw["position"] = ShapeGroup([goal_shape({"k": "rect", "r": r}) for r in g["pos"]["rs"]])
+        elif g["pos"]["k"] != "none":
+            kw["position"] = goal_shape(g["pos"])
+        if g["ori"]["k"] != "none":
+            kw["orientation"] = AngleInterval(grid_angle(g["ori"]["a"]), grid_angle(g["ori"]["b"]))
+        if g["vel"]["k"] != "none":
+            kw["velocity"] = Interval(g["vel"]["lo"], g["vel"]["hi"])
+        states.append(CustomState(**kw) if state_class == "custom" else KSState(**kw))
+    pps = PlanningProblemSet([PlanningProblem(1, init_state(), GoalRegion(states, lanelets_of or None))])
+    ff = FileFormat.XML if fmt == "xml" else FileFormat.PROTOBUF
+    if os.path.exists(path):
+        os.remove(path)
+    from commonroad.scenario.scenario import Tag
+    CommonRoadFileWriter(sc, pps, "crv", "crv", "crv", {Tag.URBAN}, file_format=ff).write_to_file(
+        path, OverwriteExistingFile.ALWAYS)
+    sc2, pps2 = CommonRoadFileReader(path, file_format=ff).open()
+    os.remove(path)
+    return sc2, pps2, pps2.find_planning_problem_by_id(1)
